@@ -614,6 +614,97 @@ func checkC19(c *Ctx) Meta {
 			c.OK("C19-PREFIX", "iterators-walk-every-element", "", fmt.Sprintf("%d iterator loops, each driven by Next() only", n))
 		}
 	}
+	// the iterator's key/value buffers are not kept: goleveldb reuses them on Next(), so a Key()/Value()
+	// result may be converted, copied from, measured or handed to a call, but never stored, collected,
+	// returned or captured as it is
+	{
+		var bad []string
+		n := 0
+		for fn := range c.AllFuncs {
+			if pkgOf(fn) != pkgLDB {
+				continue
+			}
+			fn := fn
+			allInstrs(fn, func(in ssa.Instruction) {
+				cl, ok := in.(*ssa.Call)
+				if !ok || !cl.Call.IsInvoke() || !strings.HasSuffix(cl.Call.Value.Type().String(), "iterator.Iterator") {
+					return
+				}
+				if m := cl.Call.Method.Name(); m != "Key" && m != "Value" {
+					return
+				}
+				n++
+				taint := map[ssa.Value]bool{cl: true}
+				for changed := true; changed; {
+					changed = false
+					allInstrs(fn, func(i2 ssa.Instruction) {
+						v, isV := i2.(ssa.Value)
+						if !isV || taint[v] {
+							return
+						}
+						switch x := i2.(type) {
+						case *ssa.Slice:
+							if taint[x.X] {
+								taint[v], changed = true, true
+							}
+						case *ssa.ChangeType:
+							if taint[x.X] {
+								taint[v], changed = true, true
+							}
+						case *ssa.Phi:
+							for _, e := range x.Edges {
+								if taint[e] {
+									taint[v], changed = true, true
+								}
+							}
+						}
+					})
+				}
+				allInstrs(fn, func(i2 ssa.Instruction) {
+					kept := ""
+					switch x := i2.(type) {
+					case *ssa.Store:
+						if taint[x.Val] {
+							kept = "stored"
+						}
+					case *ssa.MapUpdate:
+						if taint[x.Value] || taint[x.Key] {
+							kept = "put into a map"
+						}
+					case *ssa.Return:
+						for _, r := range x.Results {
+							if taint[r] {
+								kept = "returned"
+							}
+						}
+					case *ssa.Send:
+						if taint[x.X] {
+							kept = "sent on a channel"
+						}
+					case *ssa.MakeClosure:
+						for _, b := range x.Bindings {
+							if taint[b] {
+								kept = "captured by a closure"
+							}
+						}
+					case *ssa.MakeInterface:
+						if taint[x.X] {
+							kept = "boxed into an interface value"
+						}
+					}
+					if kept != "" {
+						bad = append(bad, fn.Name()+": iterator."+cl.Call.Method.Name()+"() result "+kept+" at "+c.Pos(i2.Pos()))
+					}
+				})
+			})
+		}
+		sort.Strings(bad)
+		if len(bad) > 0 {
+			c.Bad("C19-PREFIX", "iterator-buffers-not-kept", "", strings.Join(bad, "; ")+": the iterator reuses its key/value buffer on Next(), so every kept slice ends up holding the last entry — e.g. a bucket deletion that collects the keys first deletes one entry (several times) and leaves the others behind")
+		} else if n > 0 {
+			c.OK("C19-PREFIX", "iterator-buffers-not-kept", "", fmt.Sprintf("%d Key()/Value() results, each only converted, copied from, measured or passed on", n))
+		}
+	}
 	// the deletion batch is only added to and written
 	{
 		var bad []string
